@@ -568,15 +568,19 @@ fn main() {
     vcore::quiet_panics();
     let mut rng = Rng::new(args.seed);
     let mut t = Shards::create(&args.out, "fronts", 14);
-    let files = args.scale(28, 150);
-    let per_file = args.scale(6, 12);
+    let files = args.scale(20, 150);
+    let per_file = args.scale(5, 12);
     let max_rows = args.scale(90, 200);
     let mut episodes = 0usize;
+    let mut random_gap = 0usize;
     for _ in 0..files {
         let layout = random_layout(&mut rng, max_rows);
         let f = build_file(&layout);
         for _ in 0..per_file {
             let cfg = random_cfg(&mut rng, &f);
+            if is_mask_gap(&f, &cfg) {
+                random_gap += 1;
+            }
             run_sync(&mut t, &f, &cfg);
             run_push(&mut t, &f, &cfg, &mut rng, false);
             if rng.chance(60) {
@@ -589,6 +593,32 @@ fn main() {
         }
         t.next_episode();
     }
+    // whole-page skips: page index + small pages x every policy x batch sizes 1..5 on every front-end
+    let gap_files = args.scale(8, 60);
+    let mut gap_scans = 0usize;
+    let mut k = 0usize;
+    for _ in 0..gap_files {
+        let f = build_file(&gap_layout(&mut rng, args.scale(56, 120)));
+        for cfg in gap_cfgs(&mut rng, &f) {
+            k += 1;
+            let gap = is_mask_gap(&f, &cfg);
+            run_push(&mut t, &f, &cfg, &mut rng, false);
+            match k % 3 {
+                0 => run_push(&mut t, &f, &cfg, &mut rng, true),
+                1 => run_async(&mut t, &f, &cfg, &mut rng, false),
+                _ => run_async(&mut t, &f, &cfg, &mut rng, true),
+            }
+            episodes += 2;
+            if k % 4 == 0 {
+                run_sync(&mut t, &f, &cfg);
+                episodes += 1;
+            }
+            if gap {
+                gap_scans += 2;
+            }
+        }
+        t.next_episode();
+    }
     let n = t.finish();
-    println!("DRIVER c15 events={n} episodes={episodes}");
+    println!("DRIVER c15 events={n} episodes={episodes} mask_gap_scans={gap_scans} random_cfgs_with_mask_gap={random_gap}");
 }
